@@ -233,7 +233,9 @@ func verif_C08_views2(kind, r0, left int) {
 	fresh := verifNullMatrix(kind, 2, 3)
 	r := P.Slice(r0, r0+2, 0, 3)
 	var p1, p2 bool
-	if left == 0 {
+	if left == 2 {
+		// handled below
+	} else if left == 0 {
 		XV := verifMatVals3(kind, "x", 2, 3, 0, real)
 		p1 = VerifPanics(func() { fresh.MdotM(XV.matrix(kind), Pc) })
 		p2 = VerifPanics(func() { r.MdotM(XV.matrix(kind), P) })
@@ -244,6 +246,17 @@ func verif_C08_views2(kind, r0, left int) {
 		XV := verifMatVals3(kind, "x", 3, 2, 0, real)
 		p1 = VerifPanics(func() { fresh.MdotM(Pc, XV.matrix(kind)) })
 		p2 = VerifPanics(func() { r.MdotM(P, XV.matrix(kind)) })
+	}
+	if left == 2 {
+		// work space [G|B] in one matrix: B = G.B with G and B disjoint column
+		// blocks of the same storage (the result aliases the right factor, the
+		// left factor is another view of that storage)
+		fresh = verifNullMatrix(kind, 2, 1)
+		G, B := P.Slice(0, 2, 0, 2), P.Slice(0, 2, 2, 3)
+		Gc, Bc := Pc.Slice(0, 2, 0, 2), Pc.Slice(0, 2, 2, 3)
+		r = B
+		p1 = VerifPanics(func() { fresh.MdotM(Gc, Bc) })
+		p2 = VerifPanics(func() { B.MdotM(G, B) })
 	}
 	VerifAssert("MdotM:fresh-panics-but-aliased-does-not", p2 || !p1)
 	if !p1 && !p2 {
